@@ -17,6 +17,8 @@ def T(ctx, quick, thorough):
 
 
 def mc(ctx, name, module, constants, invs, subst, workers=12, **kw):
+    if ctx.get("no_mc"):
+        return {"cases": [], "distinct": 0, "generated": 0, "seconds": 0, "module": module, "constants": constants}
     c = {"Emit": "TRUE", "Slots": "48"}
     c.update(constants)
     r = vlib.run_mc(ctx["prop"] + "_" + name, module, c, invs, subst, workers=workers, **kw)
@@ -503,6 +505,8 @@ def live_mc(ctx, name, scope, stepping):
     consts = {"M": "3", "K": "600", "Tag": '"%s"' % name, "StepRun": "TRUE" if stepping else "FALSE"}
     d = {"Emit": "TRUE"}
     d.update(consts)
+    if ctx.get("no_mc"):
+        return {"cases": []}
     r = vlib.run_mc(ctx["prop"] + "_" + name, "MC_Live", d, ["Productive", "EmitCase"],
                     {"Scope": scope, "Branches": "BranchesOf", "Labels": "LabelSet", "Defs": "SpinDefs"},
                     workers=8, properties=["Fair"] if stepping else None,
@@ -1008,4 +1012,61 @@ PROPS.update({
             "nontrivial": lambda c: True,
             "assumptions": ["extend/index on improper lists or out of range are outside the scope (they panic by contract)",
                             "TLC, Json/IOUtils, harness projectors"]},
+})
+
+
+
+# ----------------------------------------------------------------------------- C23
+
+def plan_c23(ctx):
+    """Every generator of the framework, panic accounting only (random parts; the TLC-enumerated parts are covered by
+    the individual checks, which all treat a panic as an observation)."""
+    ctx["no_mc"] = True
+    real = ctx["prop"]
+    for pid in ["C01", "C02", "C03", "C04", "C05", "C06", "C08", "C10", "C11", "C12", "C16", "C19", "C20"]:
+        sub = {"prop": pid, "tier": ctx["tier"], "seed": ctx["seed"], "rng": ctx["rng"], "mc": [], "cases": [],
+               "notes": [], "no_mc": True}
+        PROPS[pid]["plan"](sub)
+        for c in sub["cases"]:
+            c["id"] = "C23:" + c["id"]
+            if "group" in c:
+                c["group"] = "C23:" + c["group"]
+        step = 1 if ctx["tier"] == "thorough" else 2
+        keep, i = [], 0
+        # keep whole groups together
+        while i < len(sub["cases"]):
+            j = i + 1
+            while j < len(sub["cases"]) and sub["cases"][j].get("group") is not None and sub["cases"][j].get("group") == sub["cases"][i].get("group"):
+                j += 1
+            if (len(keep) + i) % step == 0 or step == 1:
+                keep.extend(sub["cases"][i:j])
+            i = j
+        add(ctx, keep)
+    ctx["prop"] = real
+    # library relations and term/domain operations
+    rng = ctx["rng"]
+    sub = {"prop": "C24", "tier": ctx["tier"], "seed": ctx["seed"], "rng": rng, "mc": [], "cases": [], "notes": []}
+    for i in range(T(ctx, 200, 3000)):
+        rel = rng.choice(["member", "member1", "append", "rember", "permute", "distinct", "cons", "first", "rest", "empty"])
+        tg = gen.TermGen(rng, [1, 2, 3], compounds=False, syms=False, nums=[1, 2])
+        n = {"member": 2, "member1": 2, "append": 3, "rember": 3, "permute": 2, "distinct": 1, "cons": 3, "first": 2,
+             "rest": 2, "empty": 1}[rel]
+        args = [gen.small_list(rng, tg) if rng.random() < 0.6 else tg.atom() for _ in range(n)]
+        if rel == "permute":
+            args[0] = gen.small_list(rng, tg)
+        add(ctx, [{"id": "C23:lib-%d" % i, "kind": "program", "mode": "query", "qvars": [1, 2, 3],
+                   "body": [["call", rel, args]], "take": 10, "budget": 200000, "noref": True, "final_probe": False}])
+
+
+PROPS.update({
+    "C23": {"plan": plan_c23, "reasons": {"panic"},
+            "rule": "the seeded random generators of every other check (tree, permutation, search, committed choice, "
+                    "isolation, project, for, FD, CLP(Z), compound) and library relations in arbitrary modes, all of which "
+                    "produce well-formed programs only; each case runs to exhaustion or its take/budget under catch_unwind "
+                    "(a dying process is isolated case by case) and any panic is a rejection.  The TLC-enumerated cases are "
+                    "covered for panics by the individual checks.  Non-trivial: every case.",
+            "nontrivial": lambda c: True,
+            "assumptions": ["well-formedness is established by construction of the generators (operands of the documented "
+                            "kinds, a domain for every FD operand, integers far from isize limits)",
+                            "overflow checks are ON in the harness build (as in the repository's debug test runs)"]},
 })
